@@ -536,7 +536,7 @@ def judge(label, prefix, runs, scs, cat, pid):
                 if ent.get("callsign") is not None and ent["callsign"].strip() not in own_cs:
                     violation("rest:provenance:callsign", f"scenario {r.name}: entry {ic} holds call sign {ent['callsign']!r}; its own records carry {sorted(own_cs)}", {"scenarios": [r.name]})
                 if own_cs and ent.get("callsign") is None:
-                    violation("rest:provenance:callsign-missing", f"scenario {r.name}: entry {ic} holds no call sign although its records carry {sorted(own_cs)}", {"scenarios": [r.name]})
+                    outcome("entry-without-callsign")    # (not judged: the property speaks of what an entry holds, not of what it must hold)
                 own_pos = {(rec.get("latitude"), rec.get("longitude")) for _, rec in lst if rec.get("latitude") is not None}
                 if ent.get("latitude") is not None and (ent.get("latitude"), ent.get("longitude")) not in own_pos:
                     violation("rest:provenance:position", f"scenario {r.name}: entry {ic} holds position ({ent.get('latitude')},{ent.get('longitude')}), which none of its own records carries", {"scenarios": [r.name]})
